@@ -23,7 +23,12 @@ def gen_job(r):
                 recs[j] = [r.choice(HEADER_CELLS) for _ in rec]
                 break
     prof = r.choice(["plain", "vars", "control", "errors"])
-    return {"recs": recs, "text": f"$FILE[{G.scan_part(r, len(recs))}][{G.match_part(r, prof, max_components=4)}]", "profile": prof}
+    mp = G.match_part(r, prof, max_components=4)
+    if r.random() < 0.35:
+        # what the line monitor knows about the whole file (handed over by copy when a CsvPaths creates the CsvPath)
+        mp += " " + r.choice(['push("tl", total_lines())', '@tl = total_lines()', 'print("of $.csvpath.total_lines")',
+                              '@pc = percent("line")', 'push("cl", count_lines())'])
+    return {"recs": recs, "text": f"$FILE[{G.scan_part(r, len(recs))}][{mp}]", "profile": prof}
 
 
 def gen_case(seed, i):
